@@ -41,6 +41,9 @@ type Net struct {
 	// OnReadDone is called by the reading goroutine when a Read has taken n bytes
 	// off the connection (before the schedule point that follows).
 	OnReadDone func(c *Conn, n int)
+	// ShortReads: every Read of every connection returns at most half of the bytes
+	// available (segment boundaries do not coincide with message boundaries)
+	ShortReads bool
 	// YieldOnWrite adds an optional schedule point at the beginning of every Write
 	YieldOnWrite bool
 	// OnFault is called (on the goroutine performing the operation) when an
@@ -406,7 +409,7 @@ func (c *Conn) Read(p []byte) (int, error) {
 			if n > len(c.rbuf) {
 				n = len(c.rbuf)
 			}
-			if c.ShortReads && n > 1 {
+			if (c.ShortReads || c.net.ShortReads) && n > 1 {
 				n = (n + 1) / 2
 			}
 			copy(p, c.rbuf[:n])
